@@ -219,6 +219,9 @@ class FakeListener:
     def close(self):
         self.closed = True
 
+    def is_serving(self):
+        return not self.closed
+
     async def wait_closed(self):
         pass
 
